@@ -500,6 +500,21 @@ func (rm *room) checkerHistory() {
 				}
 			}
 		}
+		if t.Chance(200) {
+			// the redacted copy of a create / power-levels / join-rules event
+			// in place of the event itself: same event ID, other content
+			for j, e := range contents {
+				if (e.Type() == spec.MRoomPowerLevels || e.Type() == spec.MRoomJoinRules || e.Type() == spec.MRoomCreate) && t.Bool() {
+					if twin, err := rm.impl.NewEventFromTrustedJSON(append([]byte{}, e.JSON()...), false); err == nil {
+						twin.Redact()
+						if twin.EventID() == e.EventID() && string(twin.Content()) != string(e.Content()) {
+							contents[j] = twin
+							r.Probe("history_provider_has_redacted_twin")
+						}
+					}
+				}
+			}
+		}
 		want := verdict(gmsl.Allowed(ev, provOf(contents), uidFor))
 		p.Clear()
 		for _, e := range contents {
@@ -588,6 +603,22 @@ func (rm *room) checkLinearise() {
 		return
 	}
 	state, auth = sim.Shuffle(t, state), sim.Shuffle(t, auth)
+	if t.Chance(350) {
+		// a server that leaves out of the auth chain what the state list
+		// already carries: the auth list is then not closed on its own
+		inState := map[string]bool{}
+		for _, e := range state {
+			inState[e.EventID()] = true
+		}
+		var only []gmsl.PDU
+		for _, e := range auth {
+			if !inState[e.EventID()] || t.Chance(200) {
+				only = append(only, e)
+			}
+		}
+		auth = only
+		rm.r.Probe("linearise_auth_list_deduplicated_against_state")
+	}
 	if t.Chance(400) && len(auth) > 0 {
 		auth = append(auth, sim.Pick(t, auth))
 	}
